@@ -60,6 +60,12 @@ TOKEN_VARIANTS = [
     "absent",
     "ec_priv_has_point",
     "slot0_refuses_login_key_in_slot1",
+    # two objects under the label in the FIRST place that has any, exactly one (the right key) in a later slot / module:
+    # the property demands a stop, not a guess and not a fall-through to the later place
+    "dup_public_then_single_in_second_slot",
+    "dup_private_then_single_in_second_slot",
+    "dup_public_then_single_in_second_module",
+    "dup_private_then_single_in_second_module",
 ]
 
 
@@ -119,7 +125,22 @@ def apply_token_variant(sc: S.Scenario, variant: str, alg: int) -> dict[str, Any
     elif variant == "slot0_refuses_login_key_in_slot1":
         sc.modules[0]["slots"][0]["login_ok"] = False
         k["slot"] = 1
+    elif variant.startswith("dup_") and "_then_single_in_" in variant:
+        public = variant.startswith("dup_public")
+        sc.token_edits.append(lambda w, k=k: dup(w, k, public))
+        where = ("emu0", 1) if variant.endswith("second_slot") else ("emu1", 0)
+        sc.token_edits.append(lambda w, k=k, where=where: add_pair(w, k, *where))
+        facts["duplicate"] = True
     return facts
+
+
+def add_pair(world: Any, k: dict[str, Any], module: str, slot_id: int) -> None:
+    slot = world.modules[module].slot(slot_id)
+    tk = k["tk"]
+    if tk.kind == "rsa":
+        slot.add_rsa(k["label"], tk, public=True, private=True)
+    else:
+        slot.add_ec(k["label"], tk, public=True, private=True)
 
 
 def dup(world: Any, k: dict[str, Any], public: bool) -> None:
@@ -253,6 +274,8 @@ def run(tier: str, driver_ok: bool) -> Result:
                     )
                 if allowed and not signed and AlgorithmDNSSEC[cfg_alg].value == alg:  # (else: C02's algorithm-set rule refuses)
                     res.violation("every stated condition holds but signing did not complete", case, key=f"incomplete:{variant}", impl=impl, facts=facts)
+                if window_ok and facts["duplicate"] and claims_ok and tagc != "wrong" and dsc != "wrong" and impl != {"error": "runtime"}:
+                    res.violation("two objects under the label in one slot: expected the run to stop with the duplicate-label error", case, key=f"duplicate-class:{variant}", impl=impl if "ok" not in impl else "ok")
                 if not window_ok and impl != {"violation": "keyUsage"}:
                     res.violation("key outside its validity window: expected a key-usage policy violation", case, key="window-class", impl=impl)
                 if not window_ok and any(rec["op"] == "sign" for rec in x["log"]):
